@@ -6,18 +6,19 @@ FAMILY = "alloc"
 
 MANIFEST = {
  "level": "other",
- "text": "Proved (Coq, no axioms) about the Gallina model of src/allocator.rs, for every allocator state satisfying the invariant that Props/C13 shows to hold after every history: the accounting rule of the statement per operation and per representation of the arguments (new atom +1 atom +len bytes also when stored inline; integers +1 atom + minimal-encoding bytes; pair +1; substring +1 atom and no bytes; concat +1 atom +new_size bytes also when optimised away; full restore = counts recorded by the checkpoint; transparent restore and every outcome of maybe_restore_with_node leave the counts unchanged). The composition over whole histories against the reference AllocRef is checked by differential runs, not proved. The statement as written is refuted by finding F2 (C12_refuted): new_substr on an inline small atom whose slice is not a canonical small integer counts the slice's bytes; the theorems exclude exactly that branch and the check reports it as KNOWN-FINDING.",
- "note": vlib.NOTE_COMMON + " Level 'other': per-operation accounting proved, the fold over histories against the reference is explored (model = extracted reference = independent Python reference = implementation, step by step).",
- "technique": "Coq proof of the per-operation accounting rule + model/implementation differential run over operation histories + reference accounting (extracted AllocRef and an independent Python reference) on the implementation's own counters",
+ "text": "Proved (Coq, no axioms) about the Gallina model of src/allocator.rs and the reference AllocRef (every atom a separately stored byte string; the only state is the three counts): the WHOLE-HISTORY theorem C12_history - for every limit >= 1 and every finite list of public allocator operations with arguments of the API's types, run from the initial states on both sides, if on the arena side no operation panicked and new_substr never took finding F2's branch (neither its copy nor, in the repaired code, that branch's OutOfMemory), then atom_count, pair_count and heap_size equal the reference's counts, the reference did not panic either, the limits agree and every live node denotes the reference's tree (lock-step simulation Proofs/AllocSim.v, one case per operation and outcome: new atom +1 atom +len bytes also when stored inline; integers +1 atom + minimal-encoding bytes; pair +1; substring +1 atom and no bytes; concat +1 atom +new_size bytes also when optimised away; full restore = the counts recorded by the checkpoint; transparent restore and every outcome of maybe_restore_with_node leave the counts unchanged); plus the invariant that no atom straddles the heap mark of a live checkpoint (C12_no_straddle), from which maybe_restore_with_node never reports 'invalid atom byte range' (C12_maybe_restore_total), and the per-operation accounting theorems for every allocator state satisfying the invariant. The statement as written is refuted by finding F2 (C12_refuted): new_substr on an inline small atom whose slice is not a canonical small integer counts the slice's bytes; the theorems exclude exactly that branch and the check reports it as KNOWN-FINDING.",
+ "note": vlib.NOTE_COMMON + " Level 'other': the statement as written is refuted (F2); outside F2's branch the whole-history equality is proved; histories are also explored (model = extracted reference = independent Python reference = implementation, step by step).",
+ "technique": "Coq proof (invariant + lock-step simulation of the arena model against the reference over operation histories) + model/implementation differential run over operation histories + reference accounting (extracted AllocRef and an independent Python reference) on the implementation's own counters",
 }
 
 
 def run(ctx):
     ctx.rule = alloc_common.RULE
-    ctx.explanation = ("Part proof, part exploration. Theorems (Props/C12.v): per-operation accounting for every public operation, every "
-                       "argument representation and every outcome (incl. optimised-away allocations and maybe_restore_with_node); "
-                       "C12_refuted = finding F2. Explored: whole histories, implementation counters vs the Coq model, vs the extracted "
-                       "reference AllocRef and vs an independent Python reference after every step.")
+    ctx.explanation = ("Proof + exploration. Theorems (Props/C12.v): C12_history = counts of arena and reference agree after every history "
+                       "outside F2's branch (lock-step simulation + no-straddle invariant; premises: no arena panic, F2 branch not taken); "
+                       "per-operation accounting for every public operation, every argument representation and "
+                       "every outcome; C12_refuted = finding F2. Explored: whole histories, implementation counters vs the Coq model, vs "
+                       "the extracted reference AllocRef and vs an independent Python reference after every step.")
     ctx.proofs()
     if not ctx.build():
         return
